@@ -284,6 +284,66 @@ func (h *H) ParChunks(n uint64, chunk uint64, what string, f func(lo, hi uint64)
 	}
 }
 
+// Stream runs produce in one goroutine and consume on h.Workers goroutines; items are handed over in
+// batches. The producer must stop when emit returns false (time budget reached).
+func (h *H) Stream(what string, produce func(emit func(item interface{}) bool), consume func(item interface{})) {
+	ch := make(chan []interface{}, 4*h.Workers)
+	var wg sync.WaitGroup
+	for k := 0; k < h.Workers; k++ {
+		wg.Add(1)
+		go func() {
+			defer wg.Done()
+			defer func() {
+				if r := recover(); r != nil {
+					h.InternalError(fmt.Sprintf("harness panic in %s: %v\n%s", what, r, debug.Stack()))
+					for range ch {
+					}
+				}
+			}()
+			for batch := range ch {
+				for _, it := range batch {
+					consume(it)
+				}
+			}
+		}()
+	}
+	var batch []interface{}
+	stopped := false
+	n := 0
+	emit := func(it interface{}) bool {
+		if stopped {
+			return false
+		}
+		batch = append(batch, it)
+		if len(batch) >= 128 {
+			ch <- batch
+			batch = nil
+			n++
+			if n&7 == 0 && h.Expired() {
+				stopped = true
+				return false
+			}
+		}
+		return true
+	}
+	func() {
+		defer func() {
+			if r := recover(); r != nil {
+				h.InternalError(fmt.Sprintf("harness panic in producer of %s: %v\n%s", what, r, debug.Stack()))
+			}
+		}()
+		produce(emit)
+	}()
+	if len(batch) > 0 {
+		ch <- batch
+	}
+	close(ch)
+	wg.Wait()
+	if stopped {
+		h.Cap(what + ": time budget reached before the enumeration finished")
+	}
+}
+
 func (h *H) distinct() int64 {
 	total := h.distinctByConstruction.Load()
 	for s := range h.hashes {
